@@ -197,13 +197,20 @@ class Setup:
                         mean[(slice(None),) + tuple(zero_diag_label)] = 0.01
                         std[(slice(None),) + tuple(zero_diag_label)] = 0.001
                 self.lifetime_spec = (which, mean, std)
+                # where in its interval a cohort enters / how many quadrature points: any setting of the lifetime model
+                # (drawn once per run: the twin and fresh models of a unit are built with the same options)
+                if getattr(W, "_lifetime_opts", None) is None:
+                    W._lifetime_opts = dict(inflow_at=rng.choice(["start", "middle", "middle", "end"]), n_pts_per_interval=rng.choice([1, 1, 2, 3]))
+                lopts = dict(W._lifetime_opts)
+                self.lifetime_opts = lopts
                 if which == "normal":
-                    lt = NormalLifetime(dims=ds, time_letter="t", mean=mean, std=std)
+                    lt = NormalLifetime(dims=ds, time_letter="t", mean=mean, std=std, **lopts)
                 elif which == "lognormal":
-                    lt = LogNormalLifetime(dims=ds, time_letter="t", mean=mean, std=std)
+                    lt = LogNormalLifetime(dims=ds, time_letter="t", mean=mean, std=std, **lopts)
                 else:
-                    lt = WeibullLifetime(dims=ds, time_letter="t", weibull_shape=1.0 + std, weibull_scale=mean)
+                    lt = WeibullLifetime(dims=ds, time_letter="t", weibull_shape=1.0 + std, weibull_scale=mean, **lopts)
                 W.inputs["lifetime" + tag] = which
+                W.inputs["lifetime_options"] = {k: str(v) for k, v in lopts.items()}
                 if lifetime_spec is None:
                     W._shared_lifetime = lt
                 args["lifetime_model"] = lt
@@ -261,12 +268,13 @@ def check_lifetime_tables_unchanged(W, S, name):
             from flodym.lifetime_models import NormalLifetime, WeibullLifetime, LogNormalLifetime
 
             which, mean, std = spec
+            lopts = dict(getattr(S, "lifetime_opts", {}))
             if which == "normal":
-                fresh = NormalLifetime(dims=lm.dims, time_letter="t", mean=mean, std=std)
+                fresh = NormalLifetime(dims=lm.dims, time_letter="t", mean=mean, std=std, **lopts)
             elif which == "lognormal":
-                fresh = LogNormalLifetime(dims=lm.dims, time_letter="t", mean=mean, std=std)
+                fresh = LogNormalLifetime(dims=lm.dims, time_letter="t", mean=mean, std=std, **lopts)
             else:
-                fresh = WeibullLifetime(dims=lm.dims, time_letter="t", weibull_shape=1.0 + std, weibull_scale=mean)
+                fresh = WeibullLifetime(dims=lm.dims, time_letter="t", weibull_shape=1.0 + std, weibull_scale=mean, **lopts)
             ok = bool(np.array_equal(np.array(lm.sf), np.array(fresh.sf), equal_nan=True)) and bool(np.array_equal(np.array(lm.pdf), np.array(fresh.pdf), equal_nan=True))
         W.prove(f"{name}.lifetime_tables_not_written", ok, kind="frame", detail="the lifetime model's tables differ from what they were before compute() / from those of an identical unused model")
 
@@ -1635,3 +1643,114 @@ class LapackColumnsLoop:
             return z3.Implies(z3.And(*rng), core.as_z3_bool(row_equation(W, S, prex, stock, wrap(k), tuple(wrap(a) for a in r))))
 
         W.c.add_trigger(self.name, fact)
+
+
+# ----------------------------------------------------------------------------------------
+# results do not depend on the memory layout of the arrays a stock holds (bounded: concrete arrays only -- the
+# symbolic arrays have no memory layout; an array's logical content is all the symbolic units talk about)
+
+
+def _with_layout(np, v, layout, rng):
+    """the same logical array in another memory layout"""
+    v = np.array(v, dtype=float)
+    if layout == "fortran":
+        return np.asfortranarray(v)
+    if layout == "permuted_strides":
+        perm = list(range(v.ndim))
+        rng.shuffle(perm)
+        if perm == sorted(perm) and v.ndim > 1:
+            perm = perm[1:] + perm[:1]
+        inv = [perm.index(i) for i in range(v.ndim)]
+        return np.ascontiguousarray(v.transpose(perm)).transpose(inv)
+    if layout == "every_other_element":
+        big = np.full(v.shape[:-1] + (2 * v.shape[-1],), -777.0)
+        view = big[..., ::2]
+        view[...] = v
+        return view
+    if layout == "reversed_strides":
+        big = np.ascontiguousarray(v[::-1])
+        return big[::-1]
+    return np.ascontiguousarray(v)
+
+
+@unit(
+    "stocks.memory_layouts.bounded",
+    props=["C17", "C03", "C09", "C10"],
+    targets=["flodym.stocks.InflowDrivenDSM.compute", "flodym.stocks.StockDrivenDSM.compute", "flodym.stocks.SimpleFlowDrivenStock.compute", "flodym.stocks.StockDrivenDSM._compute_inflow_lapack", "flodym.stocks.StockDrivenDSM._compute_inflow_manual"],
+    skeletons=lambda tier: [{"model": m, "solver": s, "layout": l} for (m, s) in (("inflow", None), ("stock", "manual"), ("stock", "lapack"), ("flow", None)) for l in ("fortran", "permuted_strides", "every_other_element", "reversed_strides")],
+    mode="bounded",
+    note="two non-time dimensions; the arrays the stock holds (driver and result arrays, given by the caller and holding earlier numbers) are column-major, have permuted or negative strides, or are views of every other element of a larger buffer: compute(), and compute() again after the driver changed in place, give what a stock with freshly allocated row-major arrays gives",
+)
+def u_memory_layouts(W, sk):
+    import numpy as np
+    import flodym.stocks as st
+    from flodym.dimensions import Dimension, DimensionSet
+    from flodym.flodym_arrays import StockArray
+    from flodym.lifetime_models import NormalLifetime, WeibullLifetime
+
+    rng = W.rng
+    n = rng.choice([3, 4, 5])
+    items, y = [], 1990
+    for _ in range(n):
+        items.append(y)
+        y += rng.choice([1, 1, 2, 5])
+    T = Dimension(name="Time", letter="t", items=items, dtype=int)
+    na, nb = rng.choice([1, 2, 3]), rng.choice([2, 3])
+    if getattr(W, "square", False):
+        na = nb = n
+    A = Dimension(name="Region", letter="r", items=[f"r{i}" for i in range(na)])
+    B = Dimension(name="Good", letter="g", items=[f"g{i}" for i in range(nb)])
+    dl = [T, A, B]
+    shape = (n, na, nb)
+    kind, layout = sk["model"], sk["layout"]
+    cls = {"flow": st.SimpleFlowDrivenStock, "inflow": st.InflowDrivenDSM, "stock": st.StockDrivenDSM}[kind]
+    rnd = lambda: np.array([round(1.0 + 9 * rng.random(), 3) for _ in range(int(np.prod(shape)))]).reshape(shape)
+    vals = {nm: rnd() for nm in ("stock", "inflow", "outflow")}
+    mean, std = 2.0 + rnd() / 3, 0.5 + rnd() / 10
+    second = {nm: rnd() for nm in ("stock", "inflow", "outflow")}
+    W.inputs.update({"time_items": items, "shape": list(shape), "layout": layout, "values": {k: v.tolist() for k, v in vals.items()}, "second_driver": {k: v.tolist() for k, v in second.items()}, "mean": mean.tolist(), "std": std.tolist()})
+
+    normal = rng.random() < 0.5
+    W.inputs["lifetime"] = "normal" if normal else "weibull"
+
+    def build(lay):
+        ds = DimensionSet(dim_list=list(dl))
+        args = dict(dims=ds, name="s", time_letter="t")
+        for nm in ("stock", "inflow", "outflow"):
+            args[nm] = StockArray(dims=ds, values=_with_layout(np, vals[nm], lay, rng), name=nm)
+        if kind != "flow":
+            if normal:
+                args["lifetime_model"] = NormalLifetime(dims=ds, time_letter="t", mean=mean, std=std)
+            else:
+                args["lifetime_model"] = WeibullLifetime(dims=ds, time_letter="t", weibull_shape=1.0 + std, weibull_scale=mean)
+            if kind == "stock":
+                args["solver"] = sk["solver"]
+        return cls(**args)
+
+    test = build(layout)
+    ref = build("row_major")
+    drivers = {"inflow": ["inflow"], "stock": ["stock"], "flow": ["inflow", "outflow"]}[kind]
+
+    def results(s):
+        r = {nm: np.array(getattr(s, nm).values) for nm in ("stock", "inflow", "outflow")}
+        if kind != "flow":
+            r["stock_by_cohort"] = np.array(s._stock_by_cohort)
+            r["outflow_by_cohort"] = np.array(s._outflow_by_cohort)
+        return r
+
+    def same(a, b):
+        return a.shape == b.shape and bool(np.allclose(a, b, rtol=1e-10, atol=1e-12 * W.scale if hasattr(W, "scale") else 1e-12, equal_nan=True))
+
+    for rnd_no in ("first", "second"):
+        with np.errstate(all="ignore"):
+            o1 = W.call(lambda: test.compute())
+            o2 = W.call(lambda: ref.compute())
+        W.prove(f"layouts.{rnd_no}_compute.returns", o1.kind == "return" and o2.kind == "return", detail=f"{o1!r} / reference {o2!r}")
+        if o1.kind != "return" or o2.kind != "return":
+            return
+        r1, r2 = results(test), results(ref)
+        for nm in r1:
+            W.prove(f"layouts.{rnd_no}_compute.{nm}_as_with_row_major_arrays", same(r1[nm], r2[nm]), detail=f"{nm} differs by up to {float(np.max(np.abs(r1[nm] - r2[nm]))) if r1[nm].shape == r2[nm].shape else 'shape'}")
+        for d in drivers:
+            getattr(test, d).values[...] = second[d]
+            getattr(ref, d).values[...] = second[d]
